@@ -695,12 +695,21 @@ IsSubText(t, s) == t = <<>> \/ \E i \in 1..(Len(s) - Len(t) + 1) : Sub(s, i, i +
 \* a supplied component text that needs no escape anywhere (printable, no delimiter of any component, no '%')
 NeedsNoEscape(t, printable) == \A i \in 1..Len(t) : t[i] \in printable /\ t[i] \notin (GenDelims \cup {AMP, PLUS, SEMI, EQ, PCT, SPACE})
 C18_Shows(t, O, printable) == (NeedsNoEscape(t, printable) /\ Ok(O.human_repr)) => IsSubText(t, V(O.human_repr))
+\* "the IDN host decoded rather than escaped", without an IDNA table: a host that was SUPPLIED as Unicode text got every one of
+\* its A-labels from the library's own encoder, so each of them decodes; none may be left as "xn--..." in human_repr()
+XnPrefix == <<120, 110, 45, 45>>
+C18_HostDecoded(h, O) ==
+  (~IsAscii(h) /\ ~IsSubText(XnPrefix, LowerS(h)) /\ Ok(O.human_repr) /\ Ok(O.raw_host) /\ V(O.raw_host) # None
+     /\ IsSubText(XnPrefix, V(O.raw_host)[1]))
+  => LET hm == V(O.human_repr)
+         a == AppendixB(hm) IN ~IsSubText(XnPrefix, SplitAuthority(a.authority).host)
 C18_Readable(kw, O, printable) ==
   /\ ("user" \in DOMAIN kw /\ kw.user # None /\ Netloc5(O) # <<>>) => C18_Shows(kw.user[1], O, printable)
   /\ ("password" \in DOMAIN kw /\ kw.password # None /\ Netloc5(O) # <<>>) => C18_Shows(kw.password[1], O, printable)
   /\ ("path" \in DOMAIN kw /\ ~(Netloc5(O) # <<>> /\ Has(kw.path, DOT))) => C18_Shows(kw.path, O, printable)
   /\ ("fragment" \in DOMAIN kw) => C18_Shows(kw.fragment, O, printable)
   /\ (Ok(O.host) /\ V(O.host) # None /\ Ok(O.human_repr)) => IsSubText(V(O.host)[1], V(O.human_repr))
+  /\ ("host" \in DOMAIN kw) => C18_HostDecoded(kw.host, O)
 \* every escape in human_repr() stands for '%', a delimiter of some component, or a non-printable character
 RECURSIVE EscapesJustified(_, _, _)
 EscapesJustified(t, i, printable) ==
